@@ -13,12 +13,17 @@ N2B(n) == n = 1
 OpOfT(u) == Op(u[1], N2B(u[2]), N2B(u[3]), u[4], N2B(u[5]), N2B(u[6]))
 ObsOfT(u) == [tip |-> u[1], revno |-> u[2], exc |-> u[3], ctip |-> u[4], crevno |-> u[5], mtip |-> u[6],
               mrevno |-> u[7], np |-> u[8]]
-\* the remote implementation does not check last_rev in generate_revision_history (allow_diverged on the wire)
+\* Conformance with the transcription.  Two deviations of RemoteBranch are part of the model: it does not check last_rev
+\* in generate_revision_history (allow_diverged on the wire), and the error class of a refused tip change is whatever
+\* the vfs-level fallback meets first (compared as "some error").
 SpecFor(row, o) == SpecObs(row.c.par, row.c.t, row.c.s, IF row.kind = "remote" /\ o.op = "genhist" THEN [o EXCEPT !.lr = FALSE] ELSE o)
+Conforms(row, o, r) ==
+    LET sp == SpecFor(row, o)
+    IN IF row.kind = "remote" /\ sp.exc # "" THEN r.exc # "" /\ [r EXCEPT !.exc = sp.exc] = sp ELSE r = sp
 Judge(row) ==
     LET P == row.c.par
         bad == {k \in DOMAIN row.ops : C21Failed(P, row.c.t, row.c.s, OpOfT(row.ops[k]), ObsOfT(row.out[k])) # {}}
-        dr == {k \in DOMAIN row.ops : ObsOfT(row.out[k]) # SpecFor(row, OpOfT(row.ops[k]))}
+        dr == {k \in DOMAIN row.ops : ~Conforms(row, OpOfT(row.ops[k]), ObsOfT(row.out[k]))}
     IN [failed |-> SetToSeq(UNION {{<<k, n>> : n \in C21Failed(P, row.c.t, row.c.s, OpOfT(row.ops[k]), ObsOfT(row.out[k]))} : k \in bad}),
         drift |-> SetToSeq(dr \ bad)]
 Bad(R) == SelectSeq([k \in 1..Len(R) |-> LET j == Judge(R[k]) IN [row |-> k, failed |-> j.failed, drift |-> j.drift]],
